@@ -17,6 +17,15 @@ BUDGET_S = {'quick': 3600, 'thorough': 14400}
 ASSUMPTIONS = [
     'attribute alphabets: N in {0,1}, S in {"a","b"} (ties exist); pools capped per class; closure under the caps',
     'query menu: all sequences of <= 2 (quick) / 3 (thorough) operators; navigation chains of length <= 3 (quick) / 4 (thorough)',
+    'heterogeneous start sets: for every navigation (class, number, phrase) that two classes of a schema define alike (the two '
+    'subtypes towards their supertype; the two participants towards their association class) the live instances of both classes '
+    'in the orders first+second, second+first and interleaved, given as list / generator / QuerySet / python set (reference in '
+    'the set\'s own iteration order) / union of two QuerySets; chains: the shared hop plus at most one (quick) / two (thorough) '
+    'more hops; closers: none, one equality filter, one ordering',
+    'identifiers are reported, not enforced: loader-built initial states in which two live instances agree on the declared '
+    'identifier Id (schemas a, b, c, d, e, f, h); in every state where that holds the operator menu also has equality filters '
+    'covering the identifier (where_eq(Id=v); where_eq(ID=v, S=..); the dict {id: v, n: ..}), alone and combined with every other '
+    'operator, and navigations ending in such a class get the closer where_eq(Id=v)',
     'subtype navigation is compared only when at most one subtype instance is related (the statement says "the one")',
 ]
 EXTRA = [('N', 'integer'), ('S', 'string')]
@@ -149,6 +158,12 @@ class QueryModel(c02.CappedModel):
                     ids.append(v)
             for v in ids[:2] + [None]:
                 out.append(['eq', {r: v}])
+        # equality filters that cover the declared identifier (I1 = Id), in states where live instances agree on it (the
+        # library reports, not enforces, identifiers): alone, in another letter case with one more attribute, as a dict
+        for v in self.shared_ids(w, kind)[:1]:
+            out.append(['eq', {'Id': v}])
+            out.append(['eq', {'ID': v, 'S': 'a'}])
+            out.append(['eqdict', {'id': v, 'n': 0}])
         out.append(['lam', 'N', '==', 1])
         out.append(['lam', 'S', '<', 'b'])
         out.append(['ord', ['N'], False])
@@ -156,6 +171,43 @@ class QueryModel(c02.CappedModel):
         out.append(['ord', ['N'], True])
         out.append(['ord', ['N', 'S'], True])
         out.append(['ord', ['S'], True])
+        return out
+
+    def shared_ids(self, w, kind):
+        '''Values of the identifier Id that two or more live instances of *kind* carry (Id not referential).'''
+        if 'Id' in self.schema.referentials(kind):
+            return []
+        vals = [w.ref.attr(i, 'Id') for i in w.ref.order[kind]]
+        out = []
+        for v in vals:
+            if v is not None and vals.count(v) > 1 and v not in out:
+                out.append(v)
+        return out
+
+    def mixed_starts(self, w):
+        '''Heterogeneous start sets: for every navigation (to, rel, phrase) that two classes define alike, the live
+        instances of both classes in the orders k1+k2, k2+k1 and interleaved.  -> [(kinds, hop, label, start, split)]'''
+        groups = []
+        for kind in self.schema.kinds():
+            for (to, rel, ph) in self.schema.nav_menu(kind):
+                key = (to.upper(), rel, ph)
+                for g in groups:
+                    if g[0] == key:
+                        g[2].append(kind)
+                        break
+                else:
+                    groups.append((key, [to, rel, ph], [kind]))
+        out = []
+        for key, hop, kinds in groups:
+            for k1, k2 in itertools.combinations(kinds, 2):
+                p1, p2 = list(w.ref.order[k1]), list(w.ref.order[k2])
+                if not p1 or not p2:
+                    continue
+                inter = [x for pair in itertools.zip_longest(p1, p2) for x in pair if x is not None]
+                out.append(((k1, k2), hop, 'first-second', p1 + p2, len(p1)))
+                out.append(((k1, k2), hop, 'second-first', p2 + p1, len(p2)))
+                if inter != p1 + p2:
+                    out.append(((k1, k2), hop, 'interleaved', inter, None))
         return out
 
     def real_ops(self, atoms):
@@ -245,6 +297,10 @@ class QueryModel(c02.CappedModel):
                 exp = self.ref_apply(w, pool, seq)
                 k = spell[qi % 3]
                 ctx.count('queries')
+                if any(a[0] in ('eq', 'eqdict') and 'ID' in [n.upper() for n in a[1]] for a in seq):
+                    ctx.count('identifier_filters')
+                    if len(exp) > 1:
+                        ctx.count('identifier_filters_matching_several')
                 try:
                     res = w.m.select_many(k, *self.real_ops(seq))
                     got = labels(res)
@@ -284,9 +340,13 @@ class QueryModel(c02.CappedModel):
                                 if y not in nxt:
                                     nxt.append(y)
                         cur = nxt
-                    for cl in closers if len(chain) <= 2 else closers[:2]:
+                    end = [k for k in self.schema.kinds() if k.upper() == chain[-1][0].upper()][0]
+                    idcl = [[['eq', {'Id': v}]] for v in self.shared_ids(w, end)[:1]]
+                    for cl in (closers if len(chain) <= 2 else closers[:2]) + idcl:
                         exp = self.ref_apply(w, cur, cl)
                         ctx.count('navigations')
+                        if cl in idcl:
+                            ctx.count('identifier_filters')
                         try:
                             got, one, ty = self.real_nav(w, hname, start, chain, cl, ci)
                         except Exception as e:
@@ -304,6 +364,53 @@ class QueryModel(c02.CappedModel):
                         e1 = exp[0] if exp else None
                         if one != e1:
                             bad('navigate_one', ['navigate_one', kind, hname, start, chain, cl], 'returned %s, expected %s' % (one, e1), e1, one)
+
+        # navigation from heterogeneous sets (instances of several classes that define the same navigation)
+        closers = [[], [['eq', {'N': 0}]], [['ord', ['S', 'N'], False]]]
+        for mi, (kinds, hop, oname, start, split) in enumerate(self.mixed_starts(w)):
+            to_kind = [k for k in self.schema.kinds() if k.upper() == hop[0].upper()][0]
+            # (after the shared hop the set is homogeneous again: one more hop in the quick tier, two in the thorough one)
+            chains = [[hop]] + [[hop] + c for c in self.chains(to_kind, 1 if quick else 2)]
+            forms = ['mixed-list', 'mixed-generator', 'mixed-queryset', 'mixed-set']
+            if split is not None:
+                forms.append('mixed-union:%d' % split)
+            for hname in forms:
+                order = list(start)
+                if hname == 'mixed-set':
+                    order = [lab[i] for i in set(w.handles[x] for x in start)]      # the set's own iteration order
+                for ci, chain in enumerate(chains):
+                    cur = list(order)
+                    for (to, rel, ph) in chain:
+                        nxt = []
+                        for i in cur:
+                            for y in w.ref.navigate(i, to, rel, ph):
+                                if y not in nxt:
+                                    nxt.append(y)
+                        cur = nxt
+                    for cl in closers if len(chain) <= 1 else closers[:1]:
+                        exp = self.ref_apply(w, cur, cl)
+                        ctx.count('navigations')
+                        ctx.count('mixed_navigations')
+                        q = ['navigate_many', list(kinds), hname, start, chain, cl]
+                        try:
+                            got, one, ty = self.real_nav(w, hname, start, chain, cl, ci + mi)
+                        except Exception as e:
+                            bad('navigate:mixed:exception', q, 'raised %s: %s' % (type(e).__name__, e), exp, type(e).__name__)
+                            continue
+                        ctx.distinct('outcomes', ('nav', kinds, hname, len(chain), tuple(got)))
+                        if len(got) > 1:
+                            ctx.distinct('nontrivial', (self.schema.name, kinds, hname, tuple(map(tuple, chain)), tuple(got), repr(cl)))
+                            ctx.count('mixed_navigations_returning_several')
+                        if got != exp:
+                            kindv = 'order' if sorted(map(repr, got)) == sorted(map(repr, exp)) else 'content'
+                            bad('navigate_many:mixed:' + kindv, q, 'from the instances %s (classes %s) returned %s, expected %s' %
+                                (order, '+'.join(kinds), got, exp), exp, got)
+                        elif ty != 'QuerySet':
+                            bad('navigate_many:type', q, 'returned a %s' % ty, 'QuerySet', ty)
+                        e1 = exp[0] if exp else None
+                        if one != e1:
+                            bad('navigate_one:mixed', ['navigate_one'] + q[1:], 'from the instances %s returned %s, expected %s' %
+                                (order, one, e1), e1, one)
 
         # subtype navigation
         if self.schema.name == 'h_subsuper':
@@ -334,8 +441,15 @@ class QueryModel(c02.CappedModel):
                 return insts[0]
             if hname == 'all-queryset':
                 return xtuml.QuerySet(insts)
-            if hname == 'all-generator':
+            if hname in ('all-generator', 'mixed-generator'):
                 return (i for i in insts)
+            if hname == 'mixed-queryset':
+                return xtuml.QuerySet(insts)
+            if hname == 'mixed-set':
+                return set(insts)
+            if hname.startswith('mixed-union:'):
+                n = int(hname.split(':')[1])
+                return xtuml.QuerySet(insts[:n]) | xtuml.QuerySet(insts[n:])
             return list(insts)
 
         def walk(c, style):
@@ -368,9 +482,12 @@ def seeds_for(schema):
                  ['A', dict(Id=101, B_Id=201, N=0, S='a')], ['A', dict(Id=102, B_Id=201, N=0, S='a')]]]
     if name == 'e_reflexive_1c_1c':
         return [[['A', dict(Id=101, Next_Id=102, N=1, S='a')], ['A', dict(Id=102, Next_Id=101, N=0, S='a')],
-                 ['A', dict(Id=103, Next_Id=101, N=0, S='b')]]]
+                 ['A', dict(Id=103, Next_Id=101, N=0, S='b')]],
+                # two instances agree on the identifier
+                [['A', dict(Id=101, N=1, S='a')], ['A', dict(Id=101, N=0, S='a')], ['A', dict(Id=102, Next_Id=101, N=0, S='b')]]]
     if name == 'f_reflexive_1_mc':
-        return [[['A', dict(Id=101, Parent_Id=101, N=1, S='a')], ['A', dict(Id=102, Parent_Id=101, N=0, S='a')]]]
+        return [[['A', dict(Id=101, Parent_Id=101, N=1, S='a')], ['A', dict(Id=102, Parent_Id=101, N=0, S='a')]],
+                [['A', dict(Id=101, N=0, S='a')], ['A', dict(Id=101, N=0, S='b')], ['A', dict(Id=102, Parent_Id=101, N=0, S='a')]]]
     if name == 'g_assoc_class':
         return [[['A', dict(Id=101, N=0, S='a')], ['B', dict(Id=201, N=0, S='a')], ['B', dict(Id=202, N=1, S='a')],
                  ['C', dict(Id=301, A_Id=101, B_Id=202, N=0, S='b')], ['C', dict(Id=302, A_Id=101, B_Id=201, N=0, S='a')]]]
@@ -379,7 +496,10 @@ def seeds_for(schema):
                  ['C', dict(Id=301, One_Id=101, Other_Id=102, N=0, S='b')], ['C', dict(Id=302, One_Id=102, Other_Id=102, N=0, S='a')]]]
     if name == 'h_subsuper':
         return [[['P', dict(Id=101, N=0, S='a')], ['P', dict(Id=102, N=1, S='a')],
-                 ['S1', dict(Id=101, N=0, S='b')], ['S2', dict(Id=102, N=0, S='a')]]]
+                 ['S1', dict(Id=101, N=0, S='b')], ['S2', dict(Id=102, N=0, S='a')]],
+                # two supertype instances agree on the identifier; both subtypes refer to it
+                [['P', dict(Id=101, N=0, S='a')], ['P', dict(Id=101, N=1, S='a')],
+                 ['S1', dict(Id=101, N=0, S='b')], ['S2', dict(Id=101, N=0, S='a')]]]
     return []
 
 
@@ -414,6 +534,10 @@ def run(ctx):
                         deepest_history=max(res['seen'].values(), key=len)))
     ctx.require(total >= 300, 'too few states (%d)' % total)
     ctx.require(ctx.n('queries') >= 10000 and ctx.n('navigations') >= 10000, 'too few queries evaluated')
+    ctx.require(ctx.n('mixed_navigations_returning_several') >= 1000,
+                'too few navigations from heterogeneous sets that return several instances (%d)' % ctx.n('mixed_navigations_returning_several'))
+    ctx.require(ctx.n('identifier_filters_matching_several') >= 1000,
+                'too few equality filters on an identifier that several instances share (%d)' % ctx.n('identifier_filters_matching_several'))
     ctx.require(ctx.nd('nontrivial') >= 50, 'too few navigations returning several instances (%d)' % ctx.nd('nontrivial'))
 
 
@@ -431,6 +555,8 @@ def coverage(ctx):
         traces_validated_against_impl=ctx.n('queries') + ctx.n('navigations'),
         evaluations=ctx.n('queries') + ctx.n('navigations'),
         queries=ctx.n('queries'), navigations=ctx.n('navigations'),
+        mixed_navigations=ctx.n('mixed_navigations'), mixed_navigations_returning_several=ctx.n('mixed_navigations_returning_several'),
+        identifier_filters=ctx.n('identifier_filters'), identifier_filters_matching_several=ctx.n('identifier_filters_matching_several'),
         distinct_nontrivial=ctx.nd('nontrivial'),
         distinct_outcomes=ctx.nd('outcomes'),
         rule='in every reachable state (API histories and loader-built seeds) every select_many/select_one/select_any with '
